@@ -207,6 +207,10 @@ func (w *World) pickHashes(pool []H, picks []int) []H {
 }
 
 func (w *World) opPrune(n *Node, s *Step) {
+	if n.cfg.Kind == "mapfull" && !n.crashed && !n.dead {
+		w.opPruneFull(n, s)
+		return
+	}
 	if !n.isPartial() || n.crashed || n.cfg.FullRoots {
 		return
 	}
@@ -338,4 +342,37 @@ func (w *World) opReimport(n *Node, s *Step) {
 	n.cp.Targets, n.cp.Proof = padU(pr.Targets), padH(pr.Proof)
 	w.stats.Reach["light_reimport_unsorted"]++
 	w.logf("%s: re-imported cached proof for %d leaves in prover order", n.name, len(hs))
+}
+
+// opPruneFull: Prune on a full map forest.  A full forest tracks every leaf;
+// the call must change nothing (every oracle of the node is evaluated against
+// the unchanged state, and later blocks must still apply).
+func (w *World) opPruneFull(n *Node, s *Step) {
+	if n.tainted {
+		w.rebuild(n, n.at)
+		if n.dead {
+			return
+		}
+	}
+	st := w.blocks[n.at].Post
+	hs := w.pickHashes(st.Live(), s.Picks)
+	if len(hs) == 0 {
+		return
+	}
+	hs = padH(hs)
+	w.stats.Events++
+	w.stats.Faults["prune_on_full_forest"]++
+	n.ctxTarget, n.ctxSeed = n.at, mix64(w.sc.Seed^uint64(w.stats.Events)*0x9e37^uint64(n.idx)<<32)
+	w.logf("%s: prune %d leaves (full forest: must be a no-op)", n.name, len(hs))
+	n.ops = append(n.ops, nodeOp{kind: "prune", hashes: hs})
+	n.hasCacheOps = true
+	g := w.fp.begin("Prune", hs)
+	err, _ := guard(func() error { return n.mp.Prune(hs) })
+	g.end()
+	if err != nil {
+		w.violate(n, "C09", "prune-err", fmt.Sprintf("Prune on a full forest failed: %v", err))
+		n.tainted = true
+		return
+	}
+	w.checkNode(n, st, "prune-full")
 }
